@@ -64,7 +64,7 @@ package asn1parser
 
 //@ func ReadExpectedBytesRecursive
 //@   errors_propagated
-//@   props C07
+//@   props C07 C06
 //@   requires readerOK(reader) && byteArray != nil
 //@   requires 0 <= currentPosition && currentPosition <= byteSize && len(*byteArray) == byteSize
 //@   requires[C07,C17] bounded: byteSize <= 81937
@@ -78,7 +78,7 @@ package asn1parser
 
 //@ func ReadExpectedBytes
 //@   errors_propagated
-//@   props C07
+//@   props C07 C06
 //@   requires readerOK(reader)
 //@   requires nonneg: byteSize >= 0
 //@   requires[C07,C17] bounded: byteSize <= 81937
@@ -92,7 +92,7 @@ package asn1parser
 
 //@ func PeekExpectedBytes
 //@   errors_propagated
-//@   props C07
+//@   props C07 C06
 //@   requires readerOK(reader)
 //@   requires 0 <= byteSize && 0 <= offset
 //@   requires[C07,C17] bounded: byteSize <= 81937
@@ -105,7 +105,7 @@ package asn1parser
 
 //@ func ReadTag
 //@   errors_propagated
-//@   props C07
+//@   props C07 C06
 //@   requires readerOK(reader)
 //@   assigns E.uint8, X.stream, X.spos
 //@   ensures err == nil ==> ret != nil
@@ -114,7 +114,7 @@ package asn1parser
 
 //@ func PeekTag
 //@   errors_propagated
-//@   props C07
+//@   props C07 C06
 //@   requires readerOK(reader) && 0 <= offset 
 //@   assigns E.uint8, X.stream
 //@   ensures err == nil ==> ret != nil && offset < 4096
@@ -122,7 +122,7 @@ package asn1parser
 
 //@ func ReadUint8
 //@   errors_propagated
-//@   props C07
+//@   props C07 C06
 //@   requires readerOK(reader)
 //@   assigns E.uint8, X.stream, X.spos
 //@   ensures[C06] err == nil ==> r0 == old(at(reader, 0)) && pos(reader) == old(pos(reader)) + 1 && otherStreamsKept(reader)
@@ -130,7 +130,7 @@ package asn1parser
 
 //@ func PeekUint8
 //@   errors_propagated
-//@   props C07
+//@   props C07 C06
 //@   requires readerOK(reader) && 0 <= offset
 //@   assigns E.uint8, X.stream
 //@   ensures err == nil ==> offset < 4096
@@ -138,7 +138,7 @@ package asn1parser
 
 //@ func ReadExpectedBigInt
 //@   errors_propagated
-//@   props C07
+//@   props C07 C06
 //@   requires readerOK(reader) && 0 <= sizeOfLength && sizeOfLength <= 15
 //@   assigns E.uint8, X.stream, X.spos
 //@   ensures err == nil ==> ret != nil && 0 <= big(ret) && big(ret) < pow256(sizeOfLength)
@@ -148,7 +148,7 @@ package asn1parser
 
 //@ func PeekExpectedBigInt
 //@   errors_propagated
-//@   props C07
+//@   props C07 C06
 //@   requires readerOK(reader) && 0 <= sizeOfLength && sizeOfLength <= 15 && 0 <= offset
 //@   assigns E.uint8, X.stream
 //@   ensures err == nil ==> ret != nil && 0 <= big(ret) && big(ret) < pow256(sizeOfLength)
@@ -156,7 +156,7 @@ package asn1parser
 
 //@ func ReadLength
 //@   errors_propagated
-//@   props C07
+//@   props C07 C06
 //@   requires readerOK(reader)
 //@   assigns E.uint8, X.stream, X.spos
 //@   ensures err == nil ==> ret != nil && 1 <= ret.LengthSize && ret.LengthSize <= 16 && 0 <= ret.Length && ret.Length < pow256(ret.LengthSize - 1) + 128
@@ -165,7 +165,7 @@ package asn1parser
 
 //@ func PeekLength
 //@   errors_propagated
-//@   props C07
+//@   props C07 C06
 //@   requires readerOK(reader) && 0 <= offset
 //@   assigns E.uint8, X.stream
 //@   ensures err == nil ==> ret != nil && 1 <= ret.LengthSize && ret.LengthSize <= 16 && 0 <= ret.Length && ret.Length < pow256(ret.LengthSize - 1) + 128
@@ -173,7 +173,7 @@ package asn1parser
 
 //@ func ReadTagLength
 //@   errors_propagated
-//@   props C07
+//@   props C07 C06
 //@   requires readerOK(reader)
 //@   assigns E.uint8, X.stream, X.spos
 //@   ensures err == nil ==> ret != nil && 1 <= ret.Length.LengthSize && ret.Length.LengthSize <= 16 && 0 <= ret.Length.Length
@@ -182,7 +182,7 @@ package asn1parser
 
 //@ func PeekTagLength
 //@   errors_propagated
-//@   props C07
+//@   props C07 C06
 //@   requires readerOK(reader) && 0 <= offset 
 //@   assigns E.uint8, X.stream
 //@   ensures err == nil ==> ret != nil && 1 <= ret.Length.LengthSize && ret.Length.LengthSize <= 16 && 0 <= ret.Length.Length && offset < 4096
@@ -244,7 +244,7 @@ package asn1parser
 
 //@ func ReadTVLBytesWithLimit
 //@   errors_propagated
-//@   props C07
+//@   props C07 C06
 //@   requires readerOK(reader)
 //@   requires 0 <= tagLength.Length.Length && 1 <= tagLength.Length.LengthSize && tagLength.Length.LengthSize <= 16
 //@   requires[C07,C17] limit: maxLength <= 81920
@@ -266,7 +266,7 @@ package asn1parser
 
 //@ func ReadUtcTime
 //@   errors_propagated
-//@   props C07
+//@   props C07 C06
 //@   requires readerOK(reader)
 //@   assigns E.uint8, X.stream, X.spos
 //@   ensures err == nil ==> ret != nil
@@ -287,7 +287,7 @@ package asn1parser
 
 //@ func ReadBigInt
 //@   errors_propagated
-//@   props C07
+//@   props C07 C06
 //@   requires readerOK(reader)
 //@   assigns E.uint8, X.stream, X.spos
 //@   ensures err == nil ==> ret != nil
